@@ -121,7 +121,7 @@ def gen_cases(rng, n):
 def correspondence(ctx):
     core.assert_repo_loaded()
     # the witness of the known finding first, then the corpus, then generated cases (one batch)
-    res = sched.explore(ctx, [dict(D24_WITNESS)] + [dict(c) for c in CORPUS] + gen_cases(ctx.rng, ctx.pick(16, 110)), spec,
+    res = sched.explore(ctx, [dict(D24_WITNESS)] + [dict(c) for c in CORPUS] + gen_cases(ctx.rng, ctx.pick(14, 110)), spec,
                         "C18 termination", defect=d24)
     (_, o, iv, mv, _) = res[0]
     if any(f["id"] == "D24" for f in ctx.known()):
